@@ -2,6 +2,8 @@
 From Coq Require Import QArith Qcanon ZArith List Bool.
 Require Import CGT.Model.Num CGT.Model.Ledger CGT.Model.Agg CGT.Model.Match CGT.Proofs.AggFacts CGT.Proofs.MatchInv
   CGT.Proofs.MatchGauge CGT.Proofs.Examples.
+Require Import CGT.Model.Report CGT.Model.Validate CGT.Model.Config CGT.Proofs.LedgerRescale.
+From Coq Require Import String.
 Import ListNotations.
 Open Scope Qc_scope.
 
@@ -48,6 +50,49 @@ Theorem C10_rescale : forall (w D : Z) (r : Qc) (ds : list day),
   end.
 Proof. exact run_split_rescale. Qed.
 Print Assumptions C10_rescale.
+
+(* The property's own words, at the level of ledgers.  l = a ++ sp :: b where sp is a SPLIT of security s with ratio r > 0 on date D;
+   l' is the ledger rewritten in post-split units: every BUY and SELL of s dated on or before D has its quantity multiplied by r and its
+   unit price divided by r (fees unchanged), the SPLIT line is removed, nothing else changes.  Provided the validator passes l, s has no
+   capital-return / accumulation lines (known finding D5 otherwise) and another line of s carries the date D:
+   s is refused in l' exactly when it is refused in l, on the same day for the same reason; otherwise the pool's cost and every leg's
+   cost, proceeds and gain are the same, the closing pool is the same, and each leg's quantity is multiplied by r up to D and
+   unchanged afterwards; and every other security evaluates exactly as before. *)
+Theorem C10_ledger_rescale : forall (s : string) (D : Z) (r : Qc) (a b : list gtxn) (sp : gtxn) P, 0 < r ->
+  t_date sp = D -> of_tick s sp = true -> t_op sp = Split r ->
+  (forall t, In t (a ++ b) -> of_tick s t = true -> no_event_op (t_op t) = true) ->
+  In D (map t_date (filter (of_tick s) (a ++ b))) ->
+  has_errors (map t_op (a ++ sp :: b)) = false ->
+  match sr_res (eval_tick P (a ++ sp :: b) s), sr_res (eval_tick P (map (rescale_line s D r) (a ++ b)) s) with
+  | inl e, inl e' => e = e'
+  | inr st, inr st' =>
+      m_pq st' = m_pq st * 1 /\ m_pc st' = m_pc st /\ m_pooled st' = m_pooled st /\
+      (forall z, claim_of (m_cl st') z = claim_of (m_cl st) z * split_gauge D r z) /\
+      m_disp st' = map (fun p => (fst p, map (scale_leg (if (fst p <=? D)%Z then r else 1)) (snd p))) (m_disp st) /\ m_pos st' = m_pos st * 1
+  | _, _ => False
+  end.
+Proof. intros s D r a b sp P Hr H1 H2 H3 H4 H5 H6. exact (ledger_rescale s D r Hr a b sp H1 H2 H3 H4 H5 P H6). Qed.
+Theorem C10_ledger_rescale_others : forall (s : string) (D : Z) (r : Qc) (a b : list gtxn) (sp : gtxn) P s2,
+  of_tick s sp = true -> s2 <> s ->
+  eval_tick P (map (rescale_line s D r) (a ++ b)) s2 = eval_tick P (a ++ sp :: b) s2.
+Proof. intros s D r a b sp P s2 H Hne. exact (ledger_rescale_others s D r a b sp H P s2 Hne). Qed.
+(* non-vacuity at ledger level: BUY 100 @ 1; on the split day SELL 30 @ 2 and SPLIT 2; then BUY 20 @ 3 two days later (a 30-day match across the split) *)
+Definition c10_q (z : Z) : Qc := Q2Qc (inject_Z z).
+Definition c10_a : list gtxn := [ {| t_date := 10; t_tick := "A"; t_op := Buy (c10_q 100) (c10_q 1) 0 |}; {| t_date := 41; t_tick := "A"; t_op := Sell (c10_q 30) (c10_q 2) 0 |} ].
+Definition c10_sp : gtxn := {| t_date := 41; t_tick := "A"; t_op := Split (c10_q 2) |}.
+Definition c10_b : list gtxn := [ {| t_date := 43; t_tick := "A"; t_op := Buy (c10_q 20) (c10_q 3) 0 |}; {| t_date := 50; t_tick := "B"; t_op := Buy (c10_q 5) (c10_q 1) 0 |} ].
+Example C10_ledger_rescale_applies :
+  0 < c10_q 2 /\ (forall t, In t (c10_a ++ c10_b) -> of_tick "A" t = true -> no_event_op (t_op t) = true) /\
+  In 41%Z (map t_date (filter (of_tick "A") (c10_a ++ c10_b))) /\ has_errors (map t_op (c10_a ++ c10_sp :: c10_b)) = false /\
+  (exists st, sr_res (eval_tick P0 (c10_a ++ c10_sp :: c10_b) "A") = inr st /\ List.length (m_disp st) = 1%nat) /\
+  (exists st', sr_res (eval_tick P0 (map (rescale_line "A" 41 (c10_q 2)) (c10_a ++ c10_b)) "A") = inr st').
+Proof.
+  split; [reflexivity|]. split; [intros t Ht _; cbn [c10_a c10_b app In] in Ht; repeat (destruct Ht as [<-|Ht]; [reflexivity|]); destruct Ht|].
+  split; [vm_compute; tauto|]. split; [vm_compute; reflexivity|].
+  split; [eexists; split; [vm_compute; reflexivity|reflexivity]|eexists; vm_compute; reflexivity].
+Qed.
+Print Assumptions C10_ledger_rescale.
+Print Assumptions C10_ledger_rescale_others.
 
 (* non-vacuity: ex1 has a split on day 31 with a sale that day matched to a purchase after the split; it is accepted and so is its rescaling *)
 Example C10_rescale_applies :
